@@ -12,6 +12,8 @@ func execExtraOp(ts []string) (string, bool) {
 		return execDo(ts), true
 	case "asm":
 		return execAsm(ts), true
+	case "srv":
+		return execSrv(ts), true
 	case "conc":
 		return execConc(ts), true
 	case "lockfacts":
